@@ -49,26 +49,27 @@ type Clause struct {
 }
 
 type FuncContract struct {
-	Kind     string // func | extern | functype | iface
-	Name     string
-	Params   []string
-	Results  []string
-	Requires []*Clause
-	Ensures  []*Clause
-	Modifies []string
-	HasMod   bool
-	Loops    map[int]*LoopSpec
-	Pure     bool
-	Trusted  bool
-	NoInline bool
-	Panics   bool // explicit panics allowed (reported as precondition of callers)
-	File     string
-	Line     int
-	Pkg      string // package path of the contract file ("" for library files)
-	Used     bool
-	At       string // source text fingerprint: binds the contract to the function containing this text
-	Asserts  []*AssertAt
-	RelName  string
+	Kind      string // func | extern | functype | iface
+	Name      string
+	Params    []string
+	Results   []string
+	Requires  []*Clause
+	Ensures   []*Clause
+	Modifies  []string
+	HasMod    bool
+	Loops     map[int]*LoopSpec
+	Pure      bool
+	Trusted   bool
+	NoInline  bool
+	Panics    bool // explicit panics allowed (reported as precondition of callers)
+	File      string
+	Line      int
+	Pkg       string // package path of the contract file ("" for library files)
+	Used      bool
+	At        string // source text fingerprint: binds the contract to the function containing this text
+	Asserts   []*AssertAt
+	GhostSets []*GhostSet
+	RelName   string
 }
 
 // AssertAt is an inline assertion: proved just before the first instruction of the source line
@@ -76,6 +77,15 @@ type FuncContract struct {
 type AssertAt struct {
 	At string
 	C  *Clause
+}
+
+// GhostSet is a ghost assignment performed when the function returns: g(arg) := value
+// (value may use old()). Callers see it as a postcondition.
+type GhostSet struct {
+	Ghost string
+	Arg   *Expr
+	Val   *Expr
+	Text  string
 }
 
 type PredDef struct {
@@ -136,7 +146,7 @@ func newContracts0() *Contracts {
 }
 
 var clauseKeywords = map[string]bool{"func": true, "extern": true, "functype": true, "iface": true, "params": true, "results": true,
-	"requires": true, "ensures": true, "assert": true, "modifies": true, "loop": true, "pure": true, "trusted": true, "noinline": true, "panics": true,
+	"requires": true, "ensures": true, "assert": true, "ghostset": true, "modifies": true, "loop": true, "pure": true, "trusted": true, "noinline": true, "panics": true,
 	"pred": true, "ghost": true, "smt": true, "lemma": true, "assume": true, "end": true, "nonnil": true, "globalinv": true, "lemma_ind": true}
 
 func firstWord(s string) string {
@@ -276,6 +286,26 @@ func (cs *Contracts) LoadContractFile(path, pkgPath string) error {
 			} else {
 				cur.Ensures = append(cur.Ensures, k)
 			}
+		case "ghostset":
+			if cur == nil {
+				return fmt.Errorf("%s:%d: ghostset outside func", path, c.no)
+			}
+			i := strings.Index(c.text, ":=")
+			lp := strings.Index(c.text, "(")
+			if i < 0 || lp < 0 || lp > i {
+				return fmt.Errorf("%s:%d: ghostset needs g(arg) := expr", path, c.no)
+			}
+			lhs := strings.TrimSpace(c.text[:i])
+			rp := strings.LastIndex(lhs, ")")
+			argE, err := ParseExpr(lhs[lp+1 : rp])
+			if err != nil {
+				return fmt.Errorf("%s:%d: %v", path, c.no, err)
+			}
+			valE, err := ParseExpr(strings.TrimSpace(c.text[i+2:]))
+			if err != nil {
+				return fmt.Errorf("%s:%d: %v", path, c.no, err)
+			}
+			cur.GhostSets = append(cur.GhostSets, &GhostSet{Ghost: strings.TrimSpace(lhs[:lp]), Arg: argE, Val: valE, Text: c.text})
 		case "assert":
 			// assert at "<source text>" : <expr>
 			if cur == nil {
